@@ -121,6 +121,8 @@ class World:
         self.seq = list(seq)
         self.boxkind = box
         self.title = f'mcx C05 {"-".join(seq)} {box} ; t= 12.5'
+        if box == 'tric':                 # leading, inner and trailing blanks belong to the title
+            self.title = f'   frame    12   ({"-".join(seq)}: run, replica)  '
         if box == 'hex' and _UTF:
             self.title = f'L\u00edquido i\u00f3nico {"-".join(seq)} \u2013 25 \u00b0C, \u03b1 nm\u00b3'
         rots = generic_rotations(seed, k=5)
@@ -232,6 +234,10 @@ class C05(Check):
                                                       'every extrapolate inside a sequence is checked too'}
         for pre in itertools.product(HIST_EVENTS, repeat=2):
             u.append({'hist': hdepth, 'pre': list(pre)})
+        if tier == 'thorough':
+            # the five-digit boundary: a mapped system of 100 002 atoms (atom numbers wrap, lines keep their width)
+            self.bounds['large_system'] = '50 001 one-bead molecules -> 100 002 atoms'
+            u.append({'big100k': True})
         if RESCOUNT:
             self.bounds['residue_count_differs'] = {'species': list(RESCOUNT), 'sequence_length_max': 2,
                                                     'alphabet': list(RESCOUNT) + ['S1', 'W']}
@@ -247,6 +253,9 @@ class C05(Check):
                         for box in BOXES:
                             yield {'seq': list(seq), 'box': box}
             return
+        if unit.get('big100k'):
+            yield {'big100k': 1}
+            return
         if unit.get('hist'):
             for mid in itertools.product(HIST_EVENTS, repeat=unit['hist'] - 3):
                 yield {'hist': list(unit['pre']) + list(mid) + ['extr']}
@@ -260,6 +269,8 @@ class C05(Check):
     def check_case(self, case, R, seed):
         if 'hist' in case:
             return self._history(case, R, seed)
+        if 'big100k' in case:
+            return self._big(case, R, seed)
         world = World(case['seq'], case['box'], seed)
         if 'mode' in case:
             subs = [(case['mode'], case['sub'], case['scale'], case.get('load', 'ctor'))]
@@ -356,6 +367,41 @@ class C05(Check):
             R.add('info_residue_count_differs_mismatch')
         elif sig:
             R.violation(sig, desc, det)
+
+    def _big(self, case, R, seed):
+        from gaddlemaps import Manager
+        from gaddlemaps.components import System
+        n = 50001
+        recs = [(i % 99999 + 1, 'S4R', 'E1', (i + 1) % 100000,
+                 (0.1 * (i % 100), 0.1 * ((i // 100) % 100), 0.1 * (i // 10000))) for i in range(n)]
+        box = np.array([10.0, 10.0, 10.0])
+        gro = gro_text(recs, title='one hundred thousand and two atoms', box=box)
+        with Scratch() as d, owned_random(lambda kind, a, k: np.array([0.31, 0.77, 0.52])):
+            out = os.path.join(d, 'big.gro')
+            try:
+                man = Manager(System(MemFile(gro, 'system.gro'), MemFile(itp_text('S4', SPECIES['S4'][0], SPECIES['S4'][1]), 'S4.itp')))
+                man.add_end_molecule(end_molecule('S4', np.array([recs[0][4]]), seed))
+                man.calculate_exchange_maps(scale_factor=0.5)
+                man.extrapolate_system(out)
+                with open(out) as fh:
+                    lines = fh.read().split('\n')
+            except Exception as exc:
+                R.case(case, nontrivial=False, cls='big100k', outcome='raised')
+                R.violation('large-system/exception', case, repr(exc)[:300])
+                return
+        R.case(case, nontrivial=True, cls='big100k', outcome='written')
+        natoms = 2 * n
+        body = lines[2:2 + natoms]
+        if lines[0] != 'one hundred thousand and two atoms' or lines[1].strip() != str(natoms):
+            R.violation('large-system/title-or-count', case, repr(lines[:2]))
+        elif len(set(map(len, body))) != 1:
+            bad = next(i for i, ln in enumerate(body) if len(ln) != len(body[0]))
+            R.violation('large-system/atom-lines-of-different-width', case, f'line {bad + 1}: {body[bad]!r}')
+        elif [int(ln[15:20]) for ln in body] != [(k + 1) % 100000 for k in range(natoms)]:
+            bad = next(i for i, ln in enumerate(body) if int(ln[15:20]) != (i + 1) % 100000)
+            R.violation('large-system/atom-numbers-not-consecutive-modulo-100000', case, f'line {bad + 1}: {body[bad]!r}')
+        elif len(lines) < natoms + 3 or [float(x) for x in lines[2 + natoms].split()] != [10.0, 10.0, 10.0]:
+            R.violation('large-system/box-differs', case, repr(lines[2 + natoms:2 + natoms + 2]))
 
     def _history(self, case, R, seed):
         """One workflow history on one real Manager, stepped along a 2-bit-per-species model
